@@ -9,13 +9,13 @@ TABLE = {
  },
  "C16": {
   "technique": "exhaustive pattern enumeration with a poison hook and under Miri; grammar-generated safe probe programs with the compiler as oracle (must be rejected) and must-compile control twins",
-  "text": "(a) Every arity 1..8 and every present/absent pattern of the n-ary sum/product, every own/partner/linked combination of the terminal state read crossed with five timestamp orders and both ends, Axle<0..8> construction and Axle::get_terminal for every in-range index and twelve indices past the end are executed with inputs whose exact result identifies the contributing subset, once with the 0x7F poison hook compiled in and once as a plain program under Miri with the hook off. (b) 126 #![forbid(unsafe_code)] probe programs generated from a grammar (11 terminal accessors x 6 ways of ending or moving the device x 2 uses, plus attempts to build dangling Borrow/BorrowMut/Reference values or call unsafe constructors safely) are each compiled by rustc against the live rrtk: a probe that type-checks is a violation; each probe's control twin must compile. The 66 accessor x scenario combinations that do type-check are recorded as known findings.",
+  "text": "(a) Every arity 1..8 and every present/absent pattern of the n-ary sum/product, every own/partner/linked combination of the terminal state read crossed with five timestamp orders and both ends, Axle<0..8> construction Axle::get_terminal for every in-range index and twelve indices past the end, and three live-target scenarios (a borrow of an Arc<Mutex> / Arc<RwLock> Reference holds its lock; a static_* call site evaluated twice keeps its object) are executed with inputs whose exact result identifies the contributing subset, once with the 0x7F poison hook compiled in and once as a plain program under Miri with the hook off. (b) 126 #![forbid(unsafe_code)] probe programs generated from a grammar (11 terminal accessors x 6 ways of ending or moving the device x 2 uses, plus attempts to build dangling Borrow/BorrowMut/Reference values or call unsafe constructors safely) are each compiled by rustc against the live rrtk: a probe that type-checks is a violation; each probe's control twin must compile. The 66 accessor x scenario combinations that do type-check are recorded as known findings.",
   "note": "Part (b) is bounded to the probe grammar: it refutes, it cannot prove absence over all safe programs. rustc (stable, the repository's toolchain) and Miri (nightly) are trusted oracles.",
   "engine": "rrtk-verif + rustc + cargo +nightly miri",
  },
  "C17": {
   "technique": "model-based property testing of handle sequences in three differently-configured crates (configuration differential) + multi-thread stress with an exact-count oracle",
-  "text": "Random and enumerated sequences of clone / to_dyn / borrow / borrow_mut / drop over all six Reference variants are interpreted against a one-shared-cell model with a drop counter; the same interpreter source is compiled into the harness, into a downstream crate built with features named alloc/std, into the same crate built without them, and into a second feature-less crate built against rrtk with `alloc` only and against rrtk without any feature (the three cfg-selected definitions of to_dyn! and the cfg-gated halves of Reference), and all must agree with the model (to_dyn! must not panic for the variants it lists); four library crates ({#![no_std], std} x {with, without cfg(feature = alloc/std)}) calling to_dyn! on Ptr / RcRefCell / PtrRwLock References must compile against the std-built rrtk whenever their twin without the calls does. 2..8 threads perform read-yield-write increments under borrow_mut() of per-thread References over one Arc/static lock and the final count must be exact; the static_* macros are checked for aliasing per call site.",
+  "text": "Random and enumerated sequences of clone / to_dyn / borrow / borrow_mut / drop over all six Reference variants are interpreted against a one-shared-cell model with a drop counter; the same interpreter source is compiled into the harness, into a downstream crate built with features named alloc/std, into the same crate built without them, and into a second feature-less crate built against rrtk with `alloc` only and against rrtk without any feature (the three cfg-selected definitions of to_dyn! and the cfg-gated halves of Reference), and all must agree with the model (to_dyn! must not panic for the variants it lists); four library crates ({#![no_std], std} x {with, without cfg(feature = alloc/std)}) calling to_dyn! on Ptr / RcRefCell / PtrRwLock References must compile against the std-built rrtk whenever their twin without the calls does (to_dyn! of an already converted Reference included), and the interpreter crate must compile against an alloc-only and a feature-less rrtk whenever its control build without the to_dyn! expansions does; a borrow taken through an Arc-backed Reference must hold its lock while it lives, and a static_* call site evaluated twice must hand out the same untouched object. 2..8 threads perform read-yield-write increments under borrow_mut() of per-thread References over one Arc/static lock and the final count must be exact; the static_* macros are checked for aliasing per call site.",
   "note": "The OS owns the schedule, so the stress part is a probabilistic lost-update detector; std's locks are trusted. Raw-pointer variants point at live heap objects owned by the harness.",
  },
  "C15": {
@@ -45,7 +45,7 @@ TABLE = {
  },
  "C07": {
   "technique": "property testing against an f64 reference trapezoid with running error bound, exact mirror metamorphism, must-accept oracle",
-  "text": "Accepted profiles are compared at boundary and interior times with a reference trapezoid built from the inputs and the recovered integer boundaries (acceleration exact, velocity/position within 4x a derived f32 bound), start values must be exact, arrival at the goal within a tolerance proportional to f32 epsilon times the magnitudes involved, the mirrored profile must negate every output exactly with unchanged boundaries, and comfortably feasible moves must be accepted.",
+  "text": "Accepted profiles are compared at boundary and interior times with a reference trapezoid (and at and after completion with the requested end state, exactly) built from the inputs and the recovered integer boundaries (acceleration exact, velocity/position within 4x a derived f32 bound), start values must be exact, arrival at the goal within a tolerance proportional to f32 epsilon times the magnitudes involved, the mirrored profile must negate every output exactly with unchanged boundaries, and comfortably feasible moves must be accepted.",
   "note": "Limits and positions in the ranges the quantifier states; the tolerance terms for ns truncation and f32 seconds are written out in evidence.",
  },
  "C04": {
@@ -60,7 +60,7 @@ TABLE = {
  },
  "C11": {
   "technique": "model-based property testing over generated event/set/follow histories with an f64 reference and running error bound, plus deletion metamorphism for set(same)",
-  "text": "CommandPID is driven with random histories of samples, absent/error inputs, set() calls of the same/different command and followed-command changes; every get() is compared with a reference that applies the kind's gains and integrates the control signal 0/1/2 times (presence for exactly the right samples, rounding bound x4, error reporting, update() return values); removing set(current command) calls must not change any later output bitwise.",
+  "text": "CommandPID is driven with random histories of samples, absent/error inputs, set() calls of the same/different command and followed-command changes; every get() is compared with a reference that applies the kind's gains and integrates the control signal 0/1/2 times (presence for exactly the right samples, rounding bound x4, error reporting, update() return values); kind-only changes (same number, other kind; direct and followed) must restart the computation; removing set(current command) calls must not change any later output bitwise.",
   "note": "Where two clauses of the statement overlap (error then absent / set(different) before the next sample) Err and absent are both accepted.",
  },
  "C12": {
@@ -75,7 +75,7 @@ TABLE = {
  },
  "C02": {
   "technique": "exhaustive enumeration of input categories x timestamp orderings against a table-driven reference model, plus metamorphic relations (proptest for values/arity)",
-  "text": "Every assignment of {Err(1), Err(2), None, Some} to the inputs of each of the 16 combinators (plus NoneGetter, ConstantGetter) is crossed with every weak ordering of the input timestamps, both boolean values, clock ok/err and age <,=,> limit, for f32 and Quantity payloads; the real stream's outcome (category, error identity, timestamp, bit-exact value, unit) is compared with a reference written from the rustdoc; second read == first read; Sum2/Product2 == n-ary; De Morgan duality. Exhaustive over the finite category space, values sampled.",
+  "text": "Every assignment of {Err(1), Err(2), None, Some} to the inputs of each of the 16 combinators (plus NoneGetter, ConstantGetter) is crossed with every weak ordering of the input timestamps, both boolean values, clock ok/err and age <,=,> limit, for f32 and Quantity payloads; the real stream's outcome (category, error identity, timestamp, bit-exact value, unit) is compared with a reference written from the rustdoc; second read == first read; a third read after the inputs' values changed (same categories and timestamps) == a freshly built stream on those inputs (no read leaves anything behind); Sum2/Product2 == n-ary; De Morgan duality. Exhaustive over the finite category space, values sampled.",
   "note": "Inputs are scripted getters; If/IfElse/Expirer/NoneToValue consult secondary inputs lazily as documented; newest-of ties accept any newest candidate.",
  },
  "C01": {
@@ -95,7 +95,7 @@ TABLE = {
  },
  "C05": {
   "technique": "metamorphic / history-invariant property testing over generated event histories (proptest + exhaustive short histories)",
-  "text": "For each of the 14 stateful stream instantiations, all event-kind sequences up to length 5 and thousands of random histories up to 48 events are run on the real stream; after every event the no-stale-error invariant, get-purity (incl. a twin with a different get count), reset equivalence against a freshly constructed stream fed the suffix, and absent-deletion invariance are asserted exactly (bitwise modulo NaN/-0). Exploration: sampled histories, exhaustive only for short ones.",
+  "text": "For each of the 14 stateful stream instantiations, all event-kind sequences up to length 5 and thousands of random histories up to 48 events are run on the real stream; after every event the no-stale-error invariant, get-purity (incl. a twin with a different get count, and a get() after the input changed without an update), reset equivalence against a freshly constructed stream fed the suffix, and absent-deletion invariance are asserted exactly (bitwise modulo NaN/-0). Exploration: sampled histories, exhaustive only for short ones.",
   "note": "Reset sets are taken from the rustdoc/source comments per stream; values are moderate finite f32; freeze is asserted only as far as the statement goes (windows after an absent/errored condition: purity only).",
  },
  "C09": {
